@@ -140,6 +140,11 @@ impl Tokenizer
 			Some(tree) => self.walk(&tree)?,
 			None => return Err(Box::new(lang::Error::Tokenization))
 		}
+		// the detokenizer gives up on a line after `max_line_length` bytes, so do not produce a longer one
+		if self.tokenized_line.len() > 2 + self.config.detokenizer.max_line_length as usize {
+			error!("Applesoft line too long");
+			return Err(Box::new(lang::Error::Tokenization));
+		}
 		let next_addr = match u16::try_from(self.curr_addr as usize + self.tokenized_line.len() + 3) {
 			Ok(a) => a,
 			Err(_) => {
@@ -160,6 +165,7 @@ impl Tokenizer
 		self.tokenized_program = Vec::new();
 		let mut parser = tree_sitter::Parser::new();
 		parser.set_language(&tree_sitter_applesoft::language()).expect("error loading applesoft grammar");
+		let mut line_count = 0;
 		for line in program.lines() {
 			if line.trim_start().len()==0 {
 				continue;
@@ -167,6 +173,12 @@ impl Tokenizer
 			self.line = String::from(line) + "\n";
 			self.tokenize_line(&mut parser)?;
 			self.tokenized_program.append(&mut self.tokenized_line);
+			line_count += 1;
+			// the detokenizer stops after `max_lines` lines
+			if line_count > self.config.detokenizer.max_lines {
+				error!("too many lines");
+				return Err(Box::new(lang::Error::Tokenization));
+			}
 		}
 		self.tokenized_program.push(0);
 		self.tokenized_program.push(0);
